@@ -69,7 +69,7 @@ CLAIMS['C06'] = {
     'engine': 'explore',
     'technique': 'exhaustive enumeration of link configurations x scripted connect/data/disconnect histories on 2-3 real device stacks, plus deviation-bounded exhaustive exploration of order-preserving link/HCI delivery delays',
     'text': '9 scripts (pair, reconnect, fan-out, fan-in, chain, a device that is central and peripheral at once with racing connects, an incoming connection while an outgoing one is pending) x initiator own-address {public, random} x advertiser own-address {public, random} x {legacy, extended (thorough: mixed)} advertising x {LE, BR/EDR} x controller iteration orders: connect() returns the requested peer in central role, the counterpart event fires on the owner of the address and nowhere else, both ends agree on addresses, handles distinct while live, every PDU on a test fixed channel arrives exactly once, in order, only at the peer end, disconnections reported on both ends only. Scanning: passive/active scanner x 1-2 advertisers x payload lengths: raw advertising reports carry the advertising data (and scan response data when active) byte for byte. Representative configurations re-run under all schedules with <=1 (quick) / <=2 (thorough) delivery deviations.',
-    'note': 'n <= 3 devices, one advertising set per device; the scanner uses legacy scanning (the virtual controller has no extended-scan commands). One recorded finding: scan response reports carry advertising data.',
+    'note': 'n <= 3 devices, one advertising set per device; the scanner uses legacy scanning (the virtual controller has no extended-scan commands). Recorded findings: scan response reports carry advertising data; the first PDU of a new connection is lost under an order-preserving link delay (LE: destination resolved at send time; BR/EDR: connection registered a loop turn after LMP_accepted; 4 signatures).',
 }
 
 CLAIMS['C05'] = {
@@ -186,6 +186,23 @@ _ADDED = {
     'C15': ' The reference model keeps a namespace in existence once something was stored in it (its store goes on answering from it when it is empty again, whatever the file lists).',
 }
 for _k, _t in _ADDED.items():
+    CLAIMS[_k]['text'] = CLAIMS[_k]['text'].rstrip() + _t
+_ADDED_E = {
+    'C01': ' A value that an open enumeration of the module cannot construct (its own hook for undefined values failing) is a verdict.',
+    'C03': ' In the CIG family the CIS ids differ from the CIG id, the peer application accepts CIS requests, Create CIS uses the handle the latest Set CIG Parameters returned and must be concluded by LE CIS Established for that handle.',
+    'C04': ' Completion events that list one handle twice; a drain() that ends with an unexpected exception is a verdict.',
+    'C05': ' The end-to-end runs are repeated (3 geometries quick, all thorough) with every Number Of Completed Packets event rewritten to list an entry for a handle without ACL link before the real one.',
+    'C06': ' Addresses are compared with their kind (public / random). greet scripts: an application that sends from its connection-event listener (central, peripheral, both), LE and BR/EDR, also with synchronous host-controller wiring and under explored delays. A CONNECT_IND travels in the link FIFO of its destination (nothing of a connection can overtake the PDU that creates it).',
+    'C08': ' crossed is also run with the frame check sequence enabled (the FCS covers the identifier the frame travels under).',
+    'C09': ' cancel also gives up on opens the peer refuses (unserved PSM; the refusal of an enhanced request lists no channel), at every message boundary, followed by an open, and 70 times in a row.',
+    'C10': ' rendezvous: a request (read, read blob, read by type, read multiple, write request) on an attribute whose asynchronous application callback completes only once a key attribute has been written, x the PDU that writes it (write command on the same bearer, write request / command on another bearer) x bearer pairs: every request gets exactly one response.',
+    'C11': ' Write Request / Command carrying the bytes the attribute already holds (a refusal may not depend on the value). Placement descriptor_cccd: an application-supplied Client Characteristic Configuration descriptor with a static value and requirement bits.',
+    'C13': ' The eight representative cells are also paired a second time on a new connection (the controller reuses the handle): the second pairing must end as the first did on both sides and the stores must hold the new keys.',
+    'C16': ' Every L2CAP channel of the connection that is open when the fault strikes must have emitted its close event once the connection is gone.',
+    'C17': ' Bed le_coc_crossed: the echo channel is opened while the victim opens a channel of its own, so its two endpoints have different identifiers; Disconnection Requests naming it with the victim\'s own / an unknown / a zero source identifier or the attacker\'s identifier as destination are not valid disconnects.',
+    'C19': ' Transport-channel faults: every API sequence of <= 4 procedures with the L2CAP channel that follows an accepted Open refused (both ends must stay in one state) or with the transport channel closed before Close / Abort / Stop / Start (Close and Abort still bring both ends to IDLE).',
+}
+for _k, _t in _ADDED_E.items():
     CLAIMS[_k]['text'] = CLAIMS[_k]['text'].rstrip() + _t
 CLAIMS['C19']['note'] = 'One recorded finding: the AVCTP assembler expects a PID in continue/end packets (bumble\'s own test asserts it). The SDP server state shared by all clients, recorded earlier, was repaired (82af15d).'
 
